@@ -1,42 +1,4 @@
-mod common;
-mod py;
-mod c01_05;
-mod c03cli;
-mod c06;
-mod c07;
-mod c08;
-mod c09_12;
-mod cli;
-mod ws;
-mod c10;
-mod c12cli;
-mod c13;
-mod c14;
-mod factcheck;
-mod props;
-mod tycmp;
-mod c15;
-mod c16;
-mod c17;
-mod c18;
-mod c19;
-mod c20;
-mod gen;
-mod prog;
-mod lex;
-mod model;
-mod obs;
-mod obs_go;
-mod obs_kotlin;
-mod obs_py;
-mod obs_scala;
-mod obs_swift;
-mod obs_ts;
-mod observe;
-mod ts;
-#[allow(dead_code, unused_imports)]
-#[path = "../../vendor/serde_case.rs"]
-mod serde_case;
+use verif::*;
 
 use common::*;
 
@@ -142,6 +104,17 @@ fn do_replay(prop: &'static str, file: &str) -> i32 {
     let v: serde_json::Value = match serde_json::from_str(&txt) {
         Ok(v) => v,
         Err(e) => {
+            // not JSON: a raw libFuzzer artefact named fuzz-<target>-...
+            let name = std::path::Path::new(file).file_name().map(|n| n.to_string_lossy().into_owned()).unwrap_or_default();
+            for t in ["c07_total", "c13_cfg", "c15_docs", "c16_rename"] {
+                if name.contains(t) {
+                    let rc = fuzz::replay_artifact(t, file);
+                    if rc == 1 {
+                        println!("VIOLATION property={} replay={}", prop, file);
+                    }
+                    return rc;
+                }
+            }
             eprintln!("cannot parse {file}: {e}");
             return 2;
         }
